@@ -13,13 +13,16 @@ func init() {
 		ID:              "C02",
 		HangIsViolation: true,
 		Technique:       "exhaustive enumeration of labelled dependency digraphs (all graphs for n<=3, structured families up to 256 nodes), each executed as a real container start under a harness-owned iteration order; reference-model oracle + call/nesting budgets for termination",
-		Rule:            "programs = labelled digraphs over universal nodes (edge kinds: none / required by-name / optional by-name / slice member; self loops included) x base iteration orders; non-trivial = contains a cycle, a self loop or a fan-in >= 2; distinct = distinct (graph, order) pairs",
+		Rule:            "programs = labelled digraphs over universal nodes (edge kinds: none / required by-name / optional by-name / slice member; self loops included) x base iteration orders; plus typed cycles: <=3 components implementing one interface, each holding a single-valued by-type point of that interface (required or optional; primary / named / default-named), with 0-2 holders of the same point that do not implement it (created first / last), ascending and descending order and every single order deviation; non-trivial = contains a cycle, a self loop or a fan-in >= 2; distinct = distinct (graph, order) pairs",
 		Assumptions: []string{
 			"graphs beyond the enumerated sizes and families are not covered",
 			"post-processors do not substitute components in this family (C03 covers substitution)",
 			"termination is decided by registry-call and nesting budgets computed from the program, not by a clock",
 		},
-		Parts: []Part{{Name: "graphs", Run: c02Run, QuickS: 70, ThoroughS: 900}},
+		Parts: []Part{
+			{Name: "graphs", Run: c02Run, QuickS: 120, ThoroughS: 900},
+			{Name: "typed-cycles", Run: c02Typed, QuickS: 90, ThoroughS: 600},
+		},
 	})
 }
 
